@@ -28,7 +28,8 @@ ASSUMPTIONS = ['the library translating the edited workbook afresh is the refere
 FLOORS = {'quick': {'evaluations': 6000, 'nontrivial': 400, 'counters': {'contract_evals:set_cells_post': 800}},
           'thorough': {'evaluations': 200000, 'nontrivial': 20000, 'counters': {'contract_evals:set_cells_post': 30000}}}
 
-VALUES = [0, 1, -3, 7, 2.5, -0.25, 100, 'x', 'abc', 'Zz', True, False, dt.datetime(2024, 2, 29), dt.datetime(2023, 12, 31, 13, 30), 1000000, 42]
+VALUES = [0, 1, -3, 7, 2.5, -0.25, 100, 'x', 'abc', 'Zz', True, False, dt.datetime(2024, 2, 29), dt.datetime(2023, 12, 31, 13, 30), 1000000, 42,
+          None, None]          # None: an override without a value clears the cell (the edited workbook has a blank cell there); '' cannot be stored in a file
 
 
 def make_workbook(rng):
@@ -164,7 +165,10 @@ def run_history(ctx, hid, spec, hist, hs):
             old = spec['sheets'][s]['cells'].get(a)
             if isinstance(old, str) and old.startswith('='):
                 formula_overridden = True
-            edited['sheets'][s]['cells'][a] = wbspec.enc(v)
+            if v is None:
+                edited['sheets'][s]['cells'].pop(a, None)      # cleared: the edited workbook has no cell there
+            else:
+                edited['sheets'][s]['cells'][a] = wbspec.enc(v)
             if wbspec.rc(a)[0] > base_rows[s]:
                 beyond.append((s, a))
         o = pipeline.guarded(lambda: ex.set_cells(cells), 'set_cells')
